@@ -24,7 +24,7 @@ class Cell:
 
     def __init__(self, obs="F2_total", process="NC", fns="ZM-VFNS", nfff=4, pto=1, pto_evol=None, tmc=0,
                  projectile="electron", target="proton", fonllparts=None, nf=None, ren_sv=True, fact_sv=True,
-                 n3lo_var=0, pos_charge=None, kin_y=False, legacy_ptodis=True, kin_x=None, shared_before=(), kin_q2=None, theory_overrides=None):
+                 n3lo_var=0, pos_charge=None, kin_y=False, legacy_ptodis=True, kin_x=None, shared_before=(), kin_q2=None, theory_overrides=None, kin_order=None):
         self.obs = obs
         self.process = process
         self.fns = fns
@@ -46,6 +46,7 @@ class Cell:
         self.shared_before = tuple(shared_before)  # observables requested before cell.obs with the *same* kinematics list object
         self.kin_q2 = kin_q2  # override of the requested Q2 (a concrete number), default the symbol Q2
         self.theory_overrides = dict(theory_overrides or {})  # concrete theory-card entries (e.g. masses for threshold-boundary cells)
+        self.kin_order = kin_order  # order in which the keys of a kinematic point are written (a mapping: any order is the same request)
 
     def label(self):
         return (f"{self.obs}|{self.process}|{self.fns}|NfFF={self.nfff}|PTO={self.pto}|PTOevol={self.pto_evol}|TMC={self.tmc}"
@@ -101,6 +102,8 @@ def observables_card(cell, n_points=1):
             k["Q2"] = cell.kin_q2
         if cell.kin_y:
             k["y"] = s("y" if i == 0 else f"y{i}", True)
+        if cell.kin_order:
+            k = {name: k[name] for name in cell.kin_order if name in k}
         kins.append(k)
     o = {
         "interpolation_xgrid": [s(f"xg{j}", True) for j in range(GRID_N)],
